@@ -4,7 +4,7 @@ property (plus the extra properties listed below), undo it, and write seeded/RES
 Evidence of these runs goes to out/mut-evidence, never to evidence/."""
 import glob, json, os, re, subprocess, sys, time
 ROOT = os.path.dirname(os.path.dirname(os.path.abspath(__file__)))
-EXTRA = {"C05-m2": ["C06", "C07"], "C06-m1": ["C07"], "C17-m2": ["C07"], "C07-m3": ["C17"], "C13-m2": ["C04"], "C04-m1": ["C13"],
+EXTRA = {"C06-m2": ["C09"], "C05-m2": ["C06", "C07"], "C06-m1": ["C07"], "C17-m2": ["C07"], "C07-m3": ["C17"], "C13-m2": ["C04"], "C04-m1": ["C13"],
          "C19-m3": ["C02"], "C12-m3": ["C01"], "C09-m1": ["C08"], "C08-m2": ["C09"]}
 env = dict(os.environ, VERIF_EVIDENCE_DIR=os.path.join(ROOT, "out", "mut-evidence"))
 seeds = sys.argv[1:] or sorted(os.path.basename(d.rstrip("/")) for d in glob.glob(os.path.join(ROOT, "seeded", "C*-m*/")))
